@@ -51,9 +51,12 @@ StreamNames ==
     \* the ends of the packing alphabet ('0' = 0, '_' = 63) as the odd character of a run and as a pair
     <<48>>, <<95>>, <<97, 98, 48>>, <<97, 98, 95>>, <<95, 95>>,
     \* refused names that are long in BYTES, with multi-byte characters at every alignment (error paths quote the name)
-    LongOdd, <<18433>>, Cjk(21), Cjk(31), Cjk(32), [k \in 1..32 |-> 8364], <<97, 47>> \o [k \in 1..24 |-> IF k % 2 = 1 THEN 20013 ELSE 25991], <<97, 98>> \o [k \in 1..20 |-> 128512] }
+    LongOdd, <<18433>>, Cjk(21), Cjk(31), Cjk(32), [k \in 1..32 |-> 8364], <<97, 47>> \o [k \in 1..24 |-> IF k % 2 = 1 THEN 20013 ELSE 25991], <<97, 98>> \o [k \in 1..20 |-> 128512],
+    \* a leading control character other than U+0005 is an ordinary name (only U+0005 marks the reserved streams)
+    <<1, 67>>, <<9, 120>>, <<31>> }
 StreamNamesQ == { <<97>>, <<48, 48>>, <<14336>>, Packable(62), Packable(63), <<233>>, <<201, 97>>, <<47, 233>>, <<18496, 97>>, <<>>,
-                  N_Summary, N_Signature, T, <<48>>, <<97, 98, 95>>, LongOdd, <<18433>>, Cjk(31), Cjk(32) }
+                  N_Summary, N_Signature, T, <<48>>, <<97, 98, 95>>, LongOdd, <<18433>>, Cjk(31), Cjk(32),
+                  <<97, 18496>>, <<1, 67>> }       \* the table marker is a marker in first position only; a control character is not U+0005
 Eq(c, v) == Bin("eq", Col(c), Lit(v))
 
 E(op, args) == [op |-> op, args |-> args]
@@ -173,6 +176,11 @@ Alphabet ==
           Upd(T, <<<<V, Null>>>>, Eq(K, IntV(1))),                  \* null assigned to a key column: (1, "a") and (1, null) would collide
           Upd(T, <<<<V, sb>>, <<V, sa>>>>, Eq(K, IntV(2))),         \* a string column assigned twice: the first value leaves no trace in the pool
           E("IntoInner", [x |-> 0]), E("Reopen", [x |-> 0])}
+    [] Cfg = "keyss" ->         \* a string key column re-assigned a NEW text, which takes the pool entry the old text gives up: rows are
+                                \* ordered by the TEXT of the key, whatever the numbers of the entries ("c" in the entry of "a" sorts after "b")
+         {Cre(T, TabC), Ins(T, <<<<IntV(1), sa, Null>>>>), Ins(T, <<<<IntV(1), sb, Null>>>>),
+          Upd(T, <<<<V, StrV(<<99>>)>>>>, Bin("eq", Col(V), Lit(sa))), Upd(T, <<<<V, sa>>>>, Bin("eq", Col(V), Lit(sb))),
+          Del(T, Bin("eq", Col(V), Lit(sb))), E("IntoInner", [x |-> 0]), E("Reopen", [x |-> 0])}
     [] Cfg = "keys" ->          \* key shapes: key not first, composite with nullable string part
          {Cre(U, TabU), Cre(T, TabC), Drp(U), Drp(T)}
          \cup {Ins(U, <<<<v, IntV(k)>>>>) : k \in {1, 2}, v \in {Null, sa}}
@@ -233,7 +241,7 @@ MCSpec == MCInit /\ [][MCNext]_vars
 
 \* names that could alias another one under the packing or under the container's comparison
 ProbeNames == {<<97>>, <<48, 48>>, <<14336>>, T, <<233>>, Packable(62), <<95, 95>>, <<18431>>}
-PoolBound == /\ Len(pool) <= (IF Cfg = "catalog" THEN 90 ELSE IF Cfg = "keysc" THEN 60 ELSE 40)
+PoolBound == /\ Len(pool) <= (IF Cfg = "catalog" THEN 90 ELSE IF Cfg \in {"keysc", "keyss"} THEN 60 ELSE 40)
              /\ Cardinality(DOMAIN ustreams \ {SIG}) <= 2
              /\ (Cfg = "streamsfull" /\ Cardinality(DOMAIN ustreams \ {SIG}) = 2 => (DOMAIN ustreams \cap ProbeNames) # {})
 
